@@ -14,7 +14,7 @@ CFG = dict(
                'fragment and covered by the per-run correspondence and oracle only. Trusted: Coq kernel; the harness (AST printer, tables of f64 '
                'lexeme values / {} / {:?} texts / non-ASCII character classes taken from Rust and validated per case by tabs_ok); the hand-written '
                'model agrees with the Rust code by correspondence, not by proof.',
-    bin='c09', n_quick=2000, n_thorough=40000,
+    bin='c09', n_quick=2000, n_thorough=12000,
     corr_name='Model/Syntax.v (parse_rule, show_rule) vs inputlayer::parser::parse_rule / Display',
     rule='hand-written corpus (67 texts incl. every known-finding witness and the two repaired defects) + seeded grammar-based rule texts '
          '(all term kinds; float lexemes integral/exponent/negative/huge/subnormal/inf/nan; strings incl. quotes, backslashes, unicode and the '
